@@ -170,12 +170,20 @@ def gen_call_macro(r: random.Random):
 def gen_block_body(r: random.Random, indent="    "):
     lines = []
     n = r.randint(1, 5)
-    pool = ["x = 1", "not python at all $$", "if y:", "print('a')", "# comment", "", "ls -la | grep z", "'''multi", "def f():", "a = (1,", "return [", "pass", "  odd indent", "\tTabbed", "x = 'str' ; y"]
+    pool = ["x = 1", "not python at all $$", "if y:", "print('a')", "# comment", "", "ls -la | grep z", "'''multi", "'''multi3", "f'''multi", "def f():", "a = (1,", "return [", "pass", "  odd indent", "\tTabbed", "x = 'str' ; y"]
     level = 0
     for _ in range(n):
         t = r.choice(pool)
         if t == "":
             lines.append("")
+            continue
+        if t in ("'''multi3", "f'''multi"):
+            # strings spanning three or more lines; inner lines keep their own (smaller) indentation
+            inner = r.choice([["two", "three"], ["  two", "", "three"], ["two {y}", "\tthree", "four"]])
+            q = "f" if t.startswith("f") else ""
+            lines.append(indent * (1 + level) + f"s = {q}\'\'\'one")
+            lines.extend(inner)
+            lines.append(r.choice(["", " ", indent * (1 + level)]) + "last\'\'\'" + r.choice(["", " ; after = 1"]))
             continue
         if t in ("'''multi", "a = (1,", "return ["):
             t = {"'''multi": "s = '''multi\nline'''", "a = (1,": "a = (1,\n 2)", "return [": "q = [\n]"}[t]
@@ -204,7 +212,7 @@ def gen_with_macro(r: random.Random):
     ctx = r.choice(["ctx", "Block()", "a.b", "m[0]"])
     asv = r.choice(["", "", " as v"])
     if r.random() < 0.25:
-        body = r.choice(["x = 1", "not python $", "ls -l", "a; b"])
+        body = r.choice(["x = 1", "not python $", "ls -l", "a; b", "s = \'\'\'a\nb\nc\nd\'\'\' ; v = 1", "t = \'\'\'a\n  b\'\'\'"])
         return f"with! {ctx}{asv}: {body}\n", ctx, f" {body}\n"  # one-line form: the rest of the line
     ind = r.choice(["    ", "  ", "\t"])
     lines = gen_block_body(r, ind)
